@@ -10,6 +10,7 @@
 
 Both passes only re-express the program's own MIR; nothing is executed."""
 import copy
+import re
 import json
 import os
 
@@ -188,9 +189,52 @@ def splice(caller, callee, arg_rvalues, dest, cont, span):
 FN_CALLS = ("std::ops::Fn::call", "std::ops::FnMut::call_mut", "std::ops::FnOnce::call_once")
 
 
+_ROOT_TYPES = set()   # names of crate-root types / traits / aliases (printed without a path): set by Facts
+
+
+def _type_params(sig):
+    """Names that can only be type parameters in a signature string: capitalised identifiers that are not part of a path and
+    not a crate-root item."""
+    out = []
+    for m_ in re.finditer(r"(?<![:\w'])([A-Z][A-Za-z0-9_]*)(?![\w]|::)", sig or ""):
+        nm = m_.group(1)
+        if nm not in _ROOT_TYPES and nm != "Self" and nm not in out:
+            out.append(nm)
+    return out
+
+
+def _subst_types(x, rx, repl):
+    if isinstance(x, str):
+        return rx.sub(repl, x)
+    if isinstance(x, list):
+        return [_subst_types(e, rx, repl) for e in x]
+    if isinstance(x, dict):
+        return {k: _subst_types(v, rx, repl) for k, v in x.items()}
+    return x
+
+
+def _instantiate(callee, call):
+    """A helper generic in one type (`fn integer<N: Into<Number>>(value: N)`), called at a concrete type: the copy that is
+    spliced in carries that type wherever the helper said `N`, so that the rules see `Number::from::<i8>` as they would in
+    the hand-written function."""
+    if callee["kind"] == "closure":
+        return callee
+    tps = _type_params(callee.get("sig"))
+    targs = [a for a in (call.get("callee_args") or []) if not str(a).startswith("'")]
+    # a method's own type arguments follow those of its impl: only the plain one-parameter case is taken
+    if len(tps) != 1 or len(targs) != 1 or re.search(r"\b%s\b" % re.escape(tps[0]), targs[0]):
+        return callee
+    rx = re.compile(r"(?<![:\w'])%s(?![\w]|::)" % re.escape(tps[0]))
+    out = dict(callee)
+    for k in ("blocks", "locals"):
+        out[k] = _subst_types(callee[k], rx, targs[0].replace("\\", "\\\\"))
+    return out
+
+
 def _inline_one(caller, bi, callee):
     """Splice `callee` (raw body json) into `caller` at the call terminating block bi."""
     call = caller["blocks"][bi]["term"]
+    callee = _instantiate(callee, call)
     span = call.get("span", {"s": "", "x": False})
     if callee["kind"] == "closure" and call["callee"] in FN_CALLS and len(call["args"]) == 2:
         # `f(x, y)` on a closure value: the arguments travel as one tuple, the closure body takes them spread out
@@ -305,12 +349,44 @@ def inline_helpers(bodies, known):
     pristine = {d: copy.deepcopy(b) for d, b in helpers.items()}
     used = {}
 
-    def calls_helper(t):
+    def closure_behind(b, op, depth=0):
+        """The closure definition a generic callable parameter was bound to by an inlined helper: `make_lhs(offset)` inside
+        `project(lbp, |offset| ..)` once `project` is spliced into the function that wrote the closure."""
+        if depth > 8 or op.get("k") not in ("copy", "move") or op.get("p"):
+            return None
+        ds = []
+        for bl in b["blocks"]:
+            for st in bl["stmts"]:
+                if st["k"] == "assign" and not st["place"]["p"] and st["place"]["l"] == op["l"]:
+                    ds.append(st["rv"])
+            tt = bl["term"]
+            if tt["k"] == "call" and not tt["dest"]["p"] and tt["dest"]["l"] == op["l"]:
+                ds.append(None)
+        if len(ds) != 1 or ds[0] is None:
+            return None
+        rv = ds[0]
+        if rv["k"] == "use":
+            return closure_behind(b, rv["op"], depth + 1)
+        if rv["k"] == "agg" and rv.get("ak") == "closure":
+            return rv.get("def")
+        return None
+
+    def calls_helper(t, b=None):
         if t["k"] != "call":
             return None
         if t.get("resolved_kind") not in (None, "Item"):
             return None
         r = t.get("resolved") or t["callee"]
+        if t["callee"] in FN_CALLS and not t.get("resolved") and b is not None and len(t["args"]) == 2:
+            d = closure_behind(b, t["args"][0])
+            if d in direct and direct[d].get("closure_root") == (b.get("closure_root") or b["def"]):
+                by_value = not str(direct[d]["locals"][1]["ty"]).startswith("&")
+                if by_value:
+                    if d not in helpers:
+                        helpers[d] = direct[d]
+                        pristine[d] = copy.deepcopy(direct[d])
+                    return d
+            return None
         if t["callee"] in FN_CALLS:
             return r if r in helpers and helpers[r]["kind"] == "closure" else None
         if r in helpers:
@@ -331,7 +407,7 @@ def inline_helpers(bodies, known):
             changed = False
             rounds += 1
             for bi in range(len(b["blocks"])):
-                h = calls_helper(b["blocks"][bi]["term"])
+                h = calls_helper(b["blocks"][bi]["term"], b)
                 if h is None:
                     continue
                 st = stack_of.get(bi, ())
@@ -345,5 +421,5 @@ def inline_helpers(bodies, known):
                 changed = True
                 break
     for h, callers in used.items():
-        helpers[h]["inlined_into"] = sorted(set(callers))
+        helpers[h]["inlined_into"] = sorted(set(callers) | set(helpers[h].get("inlined_into", [])))
     return used
